@@ -588,12 +588,13 @@ impl<'a> TypeConverter<'a> {
         created: wasm::ComponentAnyTypeId,
     ) {
         if let Some((other, orig)) = self.find_owner(referenced) {
-            match *other {
-                Owner::Interface(interface) if owner != *other => {
+            let (other, orig) = (*other, orig.clone());
+            match other {
+                Owner::Interface(interface) if owner != other => {
                     let used = UsedType {
                         interface,
                         name: if name != orig {
-                            Some(orig.to_string())
+                            Some(orig.clone())
                         } else {
                             None
                         },
@@ -609,6 +610,11 @@ impl<'a> TypeConverter<'a> {
                 }
                 _ => {}
             }
+
+            // The entity created here is owned by the same owner: a later
+            // reference to it (a `use` of this used type) is not always
+            // reachable through the alias chain, e.g. across exported instances
+            self.owners.entry(created).or_insert((other, orig));
             return;
         }
 
